@@ -99,7 +99,7 @@ theorem payloadBase_byte_array (b : Base) (hty : tyOf b.ty = .byte) (hs : b.shap
   cases hsh : b.shape with
   | nil => exact absurd hsh hs
   | cons n ns =>
-    simp [payloadBase, tmplOfBase, dataOfBase, hsh, hty, Xdr.encImpl, Xdr.encBase, Xdr.encElems, hB, hC,
+    simp [payloadBase, tmplOfBase, dataOfBase, xValR_fun, xValR_eq, hsh, hty, Xdr.encImpl, Xdr.encBase, Xdr.encElems, hB, hC,
       Xdr.lengthWord_eq]
 
 /-- a Byte scalar (also a Byte column of a sequence record): one byte, three zeros -/
@@ -120,7 +120,7 @@ theorem base_payload_length (b : Base) (h : b.WF) (m : Nat)
       obtain ⟨v, hv⟩ := prod_nil_data h hsh
       obtain ⟨n, hn⟩ := tyOf_ne_string_num (tyOf b.ty) hs v
       simp only [hsh, Xdr.prod, List.isEmpty_nil, if_true] at hc
-      simp only [payloadBase, tmplOfBase, dataOfBase, hsh, hv, Xdr.encImpl, Xdr.encBase, Xdr.encElems, hn]
+      simp only [payloadBase, tmplOfBase, dataOfBase, xValR_fun, xValR_eq, hsh, hv, Xdr.encImpl, Xdr.encBase, Xdr.encElems, hn]
       split at hc
       · next hB =>
         simp only [hB, if_true, List.map_cons, List.map_nil, List.flatten_cons, List.flatten_nil,
@@ -146,7 +146,7 @@ theorem base_payload_length (b : Base) (h : b.WF) (m : Nat)
         rw [this, e]
       have hfl := flatten_toWire_xVal (tyOf b.ty) hs b.data
       simp only [hsh, List.isEmpty_cons] at hc
-      simp only [payloadBase, tmplOfBase, dataOfBase, hsh, Xdr.encImpl, Xdr.encBase, Xdr.encElems, hS, if_false]
+      simp only [payloadBase, tmplOfBase, dataOfBase, xValR_fun, xValR_eq, hsh, Xdr.encImpl, Xdr.encBase, Xdr.encElems, hS, if_false]
       have h8 : ∀ k : Nat, (List.replicate 2 (Xdr.lengthWord k)).flatten.length = 8 := by
         intro k; simp [Xdr.lengthWord_eq]
       split at hc
